@@ -45,7 +45,8 @@ NOT_APPLICABLE = {
 
 PROPS = {
     'C05': dict(
-        rules=[r_tables.s06_ma_dispatch, r_step.s07_step_once],
+        rules=[r_tables.s06_ma_dispatch, r_step.s07_step_once,
+               lambda ctx: r_mirror.s04_mirror_siblings(ctx, which=('highest_lowest::Highest', 'highest_lowest_index::HighestIndex'))],
         feature_sets=_sets(['default']),
         explanation=('(S07) every field of every method / indicator instance that is itself a Method, a configurable moving average or a Window is stepped exactly once on every path of next() (inter-procedural through &mut self helpers; seven named exceptions with reasons). Wiring conditions every indicator formula depends on: (S06) for each of the MA kinds, MA::init builds the method '
                      'type held by the same-named MAInstance variant from that arm\'s own period and wraps exactly that instance; '
